@@ -11,6 +11,7 @@ mod hooks;
 mod mmio;
 mod out;
 mod pci;
+mod scen_adv;
 mod scen_blk;
 mod scen_cfg;
 mod scen_cmd;
@@ -81,7 +82,8 @@ pub fn run_parallel_multi<J: Send + Sync + 'static>(
     let next = Arc::new(AtomicUsize::new(0));
     let f = Arc::new(f);
     let results = Arc::new(std::sync::Mutex::new(vec![Value::Null; jobs.len()]));
-    let nthreads = std::cmp::min(14, std::cmp::max(1, jobs.len()));
+    let serial = std::env::var("VH_SERIAL").is_ok();
+    let nthreads = if serial { 1 } else { std::cmp::min(14, std::cmp::max(1, jobs.len())) };
     let mut hs = vec![];
     for _ in 0..nthreads {
         let (jobs, next, f, outs, results) = (jobs.clone(), next.clone(), f.clone(), outs.clone(), results.clone());
@@ -92,6 +94,9 @@ pub fn run_parallel_multi<J: Send + Sync + 'static>(
                     let k = next.fetch_add(1, Ordering::SeqCst);
                     if k >= jobs.len() {
                         break;
+                    }
+                    if serial {
+                        eprintln!("START {k}");
                     }
                     let (lines, summary) = f(&jobs[k], k);
                     for (o, l) in outs.iter().zip(lines.iter()) {
@@ -114,6 +119,7 @@ pub fn run_parallel_multi<J: Send + Sync + 'static>(
 fn main() {
     // panics of the code under test are data: keep them quiet, they are logged as events
     std::panic::set_hook(Box::new(|info| {
+        scen_adv::note_panic(info);
         if std::env::var("VH_PANICS").is_ok() {
             eprintln!("panic: {info}");
         }
@@ -131,6 +137,7 @@ fn main() {
         "vsock" => family_generic(&args, "vsock", |a| scen_vsock::all_params(a.extra.first().map(|s| s.as_str()).unwrap_or("random"), a.tier == "thorough", a.seed), |v| scen_vsock::VsParams::from_json(v), |p| p.to_json(), |p, sc| scen_vsock::run(p, sc)),
         "evq" => family_generic(&args, "evq", |a| scen_evq::all_params(a.tier == "thorough", a.seed), |v| scen_evq::EvqParams::from_json(v), |p| p.to_json(), |p, sc| scen_evq::run(p, sc)),
         "cmd" => family_generic(&args, "cmd", |a| scen_cmd::all_params(a.extra.first().map(|s| s.as_str()).unwrap_or("main"), a.tier == "thorough", a.seed), |v| scen_cmd::CmdParams::from_json(v), |p| p.to_json(), |p, sc| scen_cmd::run(p, sc)),
+        "adv" => family_generic(&args, "adv", |a| scen_adv::all_params(a.tier == "thorough", a.seed), |v| scen_adv::AdvParams::from_json(v), |p| p.to_json(), |p, sc| scen_adv::run(p, sc)),
         "blk" => family_generic(&args, "blk", |a| scen_blk::all_params(a.tier == "thorough", a.seed), |v| scen_blk::BlkParams::from_json(v), |p| p.to_json(), |p, sc| scen_blk::run(p, sc)),
         f => {
             eprintln!("unknown family {f}");
@@ -296,5 +303,15 @@ fn family_generic<P: Send + Sync + 'static>(
     let res = run_parallel_multi(jobs, move |p, k| run(p, &format!("{name}-{k}")), vec![out.clone(), outq.clone()]);
     let idx = json!({"family":name,"scenarios":index,"summaries":res,"events":out.events.load(Ordering::Relaxed),"qevents":outq.events.load(Ordering::Relaxed)});
     std::fs::write(format!("{}.index.json", args.out), serde_json::to_string(&idx).unwrap()).unwrap();
+    // a panic of the harness itself (not of the code under test) is a tool failure
+    let hp: Vec<String> = idx["summaries"].as_array().unwrap().iter().enumerate()
+        .flat_map(|(k, s)| s["harness_panics"].as_array().cloned().unwrap_or_default().into_iter().map(move |x| format!("{name}-{k}: {x}")))
+        .collect();
+    if !hp.is_empty() {
+        for l in hp.iter().take(20) {
+            eprintln!("HARNESS PANIC {l}");
+        }
+        return 3;
+    }
     0
 }
